@@ -186,6 +186,15 @@ func (sc *SCtx) ident(name string) (Val, types.Type, error) {
 	if v, ok := sc.vars[name]; ok {
 		return v, sc.vtypes[name], nil
 	}
+	// captured variables of a closure
+	if sc.locals && e.fn != nil {
+		for _, fv := range e.fn.FreeVars {
+			if fv.Name() == name {
+				t := fv.Type().(*types.Pointer).Elem()
+				return e.loadVal(sc.st, e.val(sc.st, fv), t), t, nil
+			}
+		}
+	}
 	if sc.locals {
 		base, ord := name, 0
 		if i := strings.Index(name, "#"); i > 0 {
@@ -723,6 +732,13 @@ func (sc *SCtx) call(x SCall) (Val, types.Type, error) {
 			return Val{}, nil, err
 		}
 		return tv(Store(a.T, i.T, v.T)), nil, nil
+	case "payload":
+		v, _, err := arg(0)
+		if err != nil {
+			return Val{}, nil, err
+		}
+		e.declIface()
+		return tv(app(SInt, "ival", v.T)), nil, nil
 	case "dyn":
 		v, _, err := arg(0)
 		if err != nil {
@@ -767,12 +783,16 @@ func (sc *SCtx) call(x SCall) (Val, types.Type, error) {
 		}
 		args = append(args, Val{T: e.asTerm(sc.st, v)})
 	}
-	rs, rt := sortOfSpecType(e.P, fn.Ret, sc.pkg)
+	fpkg := sc.pkg
+	if p := e.P.ByName[fn.Pkg]; p != nil && fn.Pkg != "" {
+		fpkg = p
+	}
+	rs, rt := sortOfSpecType(e.P, fn.Ret, fpkg)
 	if fn.Body == nil {
 		var as []string
 		var ts []Term
 		for i, p := range fn.Params {
-			s, _ := sortOfSpecType(e.P, p.Type, sc.pkg)
+			s, _ := sortOfSpecType(e.P, p.Type, fpkg)
 			if args[i].T.Sort != s {
 				return Val{}, nil, fmt.Errorf("spec fun %s: argument %d has sort %s, want %s", fn.Name, i, args[i].T.Sort, s)
 			}
@@ -796,10 +816,13 @@ func (sc *SCtx) call(x SCall) (Val, types.Type, error) {
 	n := *sc
 	n.depth++
 	n.locals = false
+	if p := e.P.ByName[fn.Pkg]; p != nil && fn.Pkg != "" {
+		n.pkg = p
+	}
 	n.vars = map[string]Val{}
 	n.vtypes = map[string]types.Type{}
 	for i, p := range fn.Params {
-		_, gt := sortOfSpecType(e.P, p.Type, sc.pkg)
+		_, gt := sortOfSpecType(e.P, p.Type, fpkg)
 		n.vars[p.Name] = args[i]
 		n.vtypes[p.Name] = gt
 	}
